@@ -730,6 +730,10 @@ func (h *c15H) runClient(cl *c15Cl) {
 		h.pending--
 		h.progress++
 	}
+	// connect at pairwise distinct instants: the resend tickers of the sessions
+	// then never fire at the same instant (goroutines woken by timers at the
+	// same instant run in an irreproducible order).
+	r.Sleep(time.Duration(313+2889*cl.idx) * time.Microsecond)
 	conn, err := h.net.Dial(gocontext.Background(), "tcp", "10.2.0.1:1883")
 	if err != nil {
 		fail("dial: %v", err)
